@@ -110,6 +110,9 @@ func (in *inst) cov(gg []glyph.ID) coverage.Table {
 	return c
 }
 
+// Deltas are the glyph id differences of the "rund" form (index = parameter b).
+var Deltas = []int{-1, -255, -256, -257, 255, 256, -500, 1}
+
 var vals = []int{-32768, -1000, -50, -1, 1, 7, 120, 999, 32767}
 
 func (in *inst) val() funit.Int16 { return funit.Int16(vals[in.r.Intn(len(vals))]) }
@@ -210,6 +213,19 @@ func (in *inst) subtable(s *Shape, form string) gtab.Subtable {
 			to = append(to, glyph.ID(start+i+delta))
 		}
 		return &gtab.Gsub1_2{Cov: in.cov(from), SubstituteGlyphIDs: to}
+	case "rund": // Gsub1_1 with a glyphs (not consecutive) and the constant delta Deltas[b] (fonts L, Lx)
+		delta := Deltas[b]
+		lo, hi := 1, LargeGlyphs-1
+		if delta < 0 {
+			lo = 1 - delta
+		} else {
+			hi = LargeGlyphs - 1 - delta
+		}
+		cov := coverage.Set{}
+		for len(cov) < a {
+			cov[glyph.ID(lo+in.r.Intn(hi-lo+1))] = true
+		}
+		return &gtab.Gsub1_1{Cov: cov, Delta: glyph.ID(delta)} // negative deltas wrap modulo 65536
 	case "map": // a glyphs, no constant delta
 		from := in.distinct(a)
 		for {
